@@ -2,10 +2,22 @@
 
 cases:
   {"kind": "pair",   "a": version, "b": version}
+  {"kind": "pair",   "a": version, "b": version, "edits": [[attribute, value], ...]}
   {"kind": "triple", "vs": [version, version, version]}
 
-Every string must be a syntactically valid version (model/c14_recogniser says VALID); anything
-else is skipped with the label ``invalid-case-skipped``.
+Every version must be a syntactically valid version string (model/c14_recogniser says VALID);
+anything else is skipped with the label ``invalid-case-skipped``.  Digit runs may be of any
+length (the references compare them exactly; the enumerated / generated ones go up to ~165
+characters).
+
+``edits`` are assignment *attempts* (attribute one of full_version / epoch / upstream_version /
+debian_revision; value any string, or null for epoch / debian_revision) made one after the other
+on ONE live ``Version(a)`` that has already been compared and hashed.  The library may accept an
+attempt (the object then stands for another version string) or refuse it with ValueError; either
+way, as long as ``str(object)`` is a valid version string S, the object has to order and hash
+exactly like a fresh ``Version(S)`` -- against that fresh object, against ``Version(b)`` and against
+``Version(a)``, in both operand orders.  Whether an attempt *should* be accepted is not judged here
+(that is C14's business).
 """
 import itertools
 
@@ -28,24 +40,55 @@ RULE = ("cases are ordered pairs (and triples) of valid version strings; enumera
         "(components up to ~12 chars) paired with 1-3 step mutations of themselves (zero padding, "
         "absent<->0 epoch/revision, '~' insertion, punctuation/letter swaps, appended suffixes), "
         "and mutation triples; a sample is first put to the real dpkg to validate the reference. "
+        "LONG DIGIT RUNS: enumerated - all ordered pairs within each of four lists "
+        "(gen.c03_versions.long_run_groups): '1.N' for ~130 numbers N (small values x 0/1/9/17/18/19/20/40 "
+        "padding zeros; 2^31, 2^32, 2^53, 2^63, 2^64 and neighbours, values differing by multiples of "
+        "2^32/2^64, 19/20/21/39/40/120-digit values differing in the first, the last or a middle digit, each "
+        "x 0/1/20 zeros; all-zero runs of 1..41), 12 of those numbers followed by '', -1, -2, +b1, .5, ~, "
+        "the same numbers bare / after a letter / in the revision / after an epoch, and as the epoch "
+        "itself; generated - a number of 1..100 digits, 1-2 nearby numbers (one digit changed, a digit "
+        "dropped/added, +-1, + k*2^32, + k*2^64), independent padding of 0..45 zeros each, in a common "
+        "frame (upstream / revision / epoch) whose tail and revision may differ; the longest run is ~165 "
+        "characters (well below Python's 4300-digit int() limit, which is NOT explored). "
+        "ASSIGNMENT ATTEMPTS ON A LIVE OBJECT ('edits'): enumerated - 16 start versions x 16 donor versions x "
+        "20 value templates built from the donor's parts over the version alphabet (a letter before the "
+        "epoch, a trailing hyphen, an empty epoch, a colon after the revision, a non-numeric epoch, a colon "
+        "or trailing hyphen in the revision, a hyphen/colon in the upstream part, and three accepted ones), "
+        "each template alone on a fresh object and all 20 in succession on one object (two rotations); "
+        "generated - near-miss pairs with 1-4 attempts (a template of the second version / of an independent "
+        "donor, or a free string of <=6 characters over {0,1,a,Z,.,+,~,:,-}). "
         "Non-trivial = the two strings differ AND at least one of: a '~' occurs, a digit run has a "
-        "leading zero, epoch absent on one side and present on the other, revision absent on one side "
+        "leading zero, a digit run is longer than 18 characters, epoch absent on one side and present on "
+        "the other, revision absent on one side "
         "and present on the other, or at the first differing position of the deciding component a "
         "digit faces a non-digit or the end of one string faces a non-digit (triples: some pair is "
-        "non-trivial); distinct = distinct canonical JSON of the case")
+        "non-trivial); a case with edits is also non-trivial when an attempt whose resulting string "
+        "consists of version-alphabet characters only was refused and the object was then "
+        "compared; distinct = distinct canonical JSON of the case")
 ASSUMPTIONS = [
     "reference = own port of dpkg lib/dpkg/version.c (order/verrevcmp/dpkg_version_compare) AND an "
     "independent zero-padded sort-key formulation; the two are compared on every evaluated pair "
-    "(disagreement = harness error, exit 2)",
-    "/usr/bin/dpkg --compare-versions (1.21.22 here) validates the reference on a sample; if the binary "
+    "(disagreement = harness error, exit 2); numbers of any width are exact in both: the port compares "
+    "digit by digit (epoch included), the sort key uses unbounded Python integers",
+    "/usr/bin/dpkg --compare-versions (1.21.22 here) validates the reference on a sample, including a "
+    "spread sample of the long-digit-run pairs (dpkg compares upstream/revision digit runs of any length "
+    "digit by digit; versions whose EPOCH exceeds INT_MAX are never handed to it); if the binary "
     "is missing the note counter dpkg-binary-missing is set and the phase only runs the oracle",
+    "a live Version object stands for the version string str(object) shows: after an accepted or a "
+    "refused assignment it must order and hash like a fresh Version of that string (only observed "
+    "while that string is valid per model/c14_recogniser); ValueError is the only exception an "
+    "assignment may raise",
     "version syntax as decided by model/c14_recogniser (letter-led upstream versions count as valid: the "
     "repository's own tests compare '0' < 'a'; dpkg only warns)",
     "PYTHONHASHSEED=0 (boot.py); equal hashes are demanded only where the reference says 'equal'",
     "Hypothesis 6.168 generators; sha1 for distinctness",
 ]
-EXHAUSTIVE = {"quick": "all ordered pairs of the quick version pool (gen.c03_versions.pool('quick'))",
-              "thorough": "all ordered pairs of the quick version pool (the larger pool is sampled, not exhausted)"}
+EXHAUSTIVE = {"quick": "all ordered pairs of the quick version pool (gen.c03_versions.pool('quick')); all ordered "
+                       "pairs within each long-digit-run list (gen.c03_versions.long_run_groups()); every start x "
+                       "donor x assignment template of gen.c03_versions.edit_cases()",
+              "thorough": "all ordered pairs of the quick version pool (the larger pool is sampled, not exhausted); "
+                          "all ordered pairs of the whole long-digit-run pool (gen.c03_versions.long_run_pool()); "
+                          "every start x donor x assignment template of gen.c03_versions.edit_cases()"}
 BUDGET = {"quick": 200, "thorough": 1500}
 
 DIGITS = "0123456789"
@@ -73,25 +116,41 @@ def _first_diff(x, y):
     return cx, cy
 
 
+def _longest_digit_run(v):
+    best = n = 0
+    for c in v:
+        n = n + 1 if c in DIGITS else 0
+        if n > best:
+            best = n
+    return best
+
+
 def features(a, b):
     """Labels describing which rarely-combined features the pair exercises."""
     ea, ua, ra = ref.split(a)
     eb, ub, rb = ref.split(b)
     f = set()
+    if len(a) > 9 or len(b) > 9:
+        la, lb = _longest_digit_run(a), _longest_digit_run(b)
+        for w in (9, 18, 20, 39):
+            if la > w or lb > w:
+                f.add("digit-run>%d" % w)
+        if (la > 18 or lb > 18) and la != lb:
+            f.add("digit-run>18:widths-differ")
     if "~" in a or "~" in b:
         f.add("tilde")
     if _has_leading_zero(a) or _has_leading_zero(b):
         f.add("leading-zeros")
     if (ea is None) != (eb is None):
         f.add("epoch-absent-vs-present")
-        if int(ea or "0") == 0 and int(eb or "0") == 0:
+        if ref.number(ea or "0") == 0 and ref.number(eb or "0") == 0:
             f.add("epoch-absent-vs-0")
     if (ra is None) != (rb is None):
         f.add("revision-absent-vs-present")
         if (ra or rb).strip("0") == "":
             f.add("revision-absent-vs-0")
     # the component that decides (first one whose spelling differs)
-    if int(ea or "0") != int(eb or "0"):
+    if ref.number(ea or "0") != ref.number(eb or "0"):
         f.add("decided-by:epoch")
     else:
         x, y = (ua, ub) if ua != ub else (ra or "", rb or "")
@@ -117,7 +176,7 @@ def features(a, b):
 
 
 NONTRIVIAL_FEATURES = frozenset(["tilde", "leading-zeros", "epoch-absent-vs-present", "revision-absent-vs-present",
-                                 "digit-vs-nondigit", "end-vs-nondigit"])
+                                 "digit-vs-nondigit", "end-vs-nondigit", "digit-run>18"])
 
 
 def decided_by(a, b, r):
@@ -125,7 +184,7 @@ def decided_by(a, b, r):
         return "equal"
     ea, ua, ra = ref.split(a)
     eb, ub, rb = ref.split(b)
-    if int(ea or "0") != int(eb or "0"):
+    if ref.number(ea or "0") != ref.number(eb or "0"):
         return "epoch"
     if ref.verrevcmp(ua, ub) != 0:
         return "upstream"
@@ -190,6 +249,99 @@ def check_pair(a, b):
     return r, lib
 
 
+VERSION_ALPHABET = frozenset("abcdefghijklmnopqrstuvwxyzABCDEFGHIJKLMNOPQRSTUVWXYZ0123456789.+:~-")
+EDIT_ATTRS = ("full_version", "epoch", "upstream_version", "debian_revision")
+
+
+def _ops(x, y):
+    return bool(x < y), bool(x == y), bool(x > y), bool(x <= y), bool(x != y), bool(x >= y)
+
+
+_EXPECT = {-1: (True, False, False, True, True, False),
+           0: (False, True, False, True, False, True),
+           1: (False, False, True, False, True, True)}
+
+
+def _attempted_string(s, attr, value):
+    """The version string the attempt would produce on an object showing ``s`` (None if not expressible)."""
+    if attr == "full_version":
+        return value
+    e, u, r = ref.split(s)
+    if attr == "epoch":
+        e = value
+    elif attr == "upstream_version":
+        u = value
+    else:
+        r = value
+    if u is None:
+        return None
+    return gen.render(e, u, r or None)
+
+
+def check_live_object(vm, s, others, history):
+    """``vm`` shows the valid version string ``s``: it must behave like a fresh Version(s)."""
+    fresh = Version(s)
+    hv, hf = hash(vm), hash(fresh)
+    if _ops(vm, fresh) != _EXPECT[0] or _ops(fresh, vm) != _EXPECT[0] or hv != hf or len({vm, fresh}) != 1:
+        raise Violation("live-object-differs-from-fresh-after-assignment-attempt",
+                        "%s: the object shows %r but against a fresh Version(%r) <,==,> give %s (reversed %s), "
+                        "hashes %d and %d" % (history, s, s, _ops(vm, fresh)[:3], _ops(fresh, vm)[:3], hv, hf))
+    for o in others:
+        r = ref.reference(s, o)
+        vo = Version(o)
+        if _ops(vm, vo) != _EXPECT[r] or _ops(vo, vm) != _EXPECT[-r]:
+            raise Violation("live-object-ordered-unlike-its-string-after-assignment-attempt",
+                            "%s: the object shows %r; dpkg orders %r vs %r as %d but the operators "
+                            "<,==,>,<=,!=,>= give %s (reversed operands: %s)"
+                            % (history, s, s, o, r, _ops(vm, vo), _ops(vo, vm)))
+        if r == 0 and hash(vm) != hash(vo):
+            raise Violation("hash-differs-for-equal-versions",
+                            "%s: the object shows %r, equal to %r, but they hash to %d and %d"
+                            % (history, s, o, hash(vm), hash(vo)))
+
+
+def check_edits(a, b, edits):
+    """Assignment attempts on one live Version(a); returns labels."""
+    labels = set()
+    vm = Version(a)
+    hash(vm), vm == Version(b), vm < Version(b)       # the object has been used before it is touched
+    history = "Version(%r)" % a
+    others = [b] if a == b else [b, a]
+    for attr, value in edits:
+        before = str(vm)
+        try:
+            setattr(vm, attr, value)
+            outcome = "accepted"
+        except ValueError:
+            outcome = "refused"
+        history += "; .%s = %r (%s)" % (attr, value, outcome)
+        s = str(vm)
+        if not _valid(s):
+            labels.add("edit:object-shows-invalid-string")     # nothing to demand of the ordering (C14 territory)
+            break
+        attempted = _attempted_string(before, attr, value) if _valid(before) else None
+        clean = bool(attempted) and all(c in VERSION_ALPHABET for c in attempted)
+        labels.add("edit:%s:%s" % (outcome, attr))
+        if outcome == "refused":
+            labels.add("edit:refused:" + ("version-alphabet-only" if clean else "bad-character-or-empty"))
+            labels.add("edit:refused:string-" + ("unchanged" if s == before else "changed"))
+        check_live_object(vm, s, others, short(history, 300))
+    return labels
+
+
+def _usable_edits(edits):
+    if not isinstance(edits, list) or len(edits) > 64:
+        return None
+    out = []
+    for e in edits:
+        if not (isinstance(e, list) and len(e) == 2 and e[0] in EDIT_ATTRS):
+            return None
+        if not (isinstance(e[1], str) or (e[1] is None and e[0] in ("epoch", "debian_revision"))):
+            return None
+        out.append((e[0], e[1]))
+    return out
+
+
 def pair_labels(a, b, r):
     f = features(a, b)
     labels = set(f)
@@ -208,9 +360,19 @@ def check(case):
         a, b = case.get("a"), case.get("b")
         if not (_valid(a) and _valid(b)):
             return (False, ("invalid-case-skipped",))
+        edits = None
+        if "edits" in case:
+            edits = _usable_edits(case["edits"])
+            if edits is None:
+                return (False, ("invalid-case-skipped",))
         r, _ = check_pair(a, b)
         nontrivial, labels = pair_labels(a, b, r)
         labels.add("kind:pair")
+        if edits:
+            el = check_edits(a, b, edits)
+            labels.update(el)
+            labels.add("kind:pair+edits")
+            nontrivial = nontrivial or "edit:refused:version-alphabet-only" in el
         return (nontrivial, sorted(labels))
     if kind == "triple":
         vs = case.get("vs")
@@ -252,6 +414,16 @@ def all_pairs(tier):
         for a in p:
             for b in p:
                 yield {"kind": "pair", "a": a, "b": b}
+    return gen_pairs
+
+
+def long_run_pairs(tier):
+    def gen_pairs():
+        groups = gen.long_run_groups() if tier == "quick" else [gen.long_run_pool()]
+        for g in groups:
+            for a in g:
+                for b in g:
+                    yield {"kind": "pair", "a": a, "b": b}
     return gen_pairs
 
 
@@ -314,7 +486,7 @@ def _validate_reference(dpkg, a, b, k):
                              % (a, DPKG_OPS[r], b, DPKG_OPS[other]))
 
 
-def dpkg_phase_factory(n_hyp, n_pool):
+def dpkg_phase_factory(n_hyp, n_pool, n_long=0):
     def dpkg_phase(shard, nshards, seed, deadline, rec):
         import hypothesis
         from hypothesis import given, settings, HealthCheck, Phase
@@ -340,6 +512,9 @@ def dpkg_phase_factory(n_hyp, n_pool):
         pool = gen.pool("thorough")
         for a, b in spread_pairs(pool, n_pool, seed, shard, nshards):
             one({"kind": "pair", "a": a, "b": b})
+        # long digit runs (one() keeps epochs beyond INT_MAX away from the binary)
+        for a, b in spread_pairs(gen.long_run_pool(), n_long, seed, shard, nshards):
+            one({"kind": "pair", "a": a, "b": b})
         rec.note("dpkg-binary-calls", dpkg.calls)
     return dpkg_phase
 
@@ -349,9 +524,17 @@ def sources(tier):
         return [Enum("pool-all-pairs", all_pairs("quick"), EXHAUSTIVE["quick"]),
                 Hyp("near-miss-pairs", gen.near_pair(), 2500, shards=6),
                 Hyp("triples", gen.near_triple(), 1000, shards=4),
-                Custom("dpkg-binary", dpkg_phase_factory(450, 300), shards=4)]
+                Enum("long-digit-runs", long_run_pairs("quick"), "all ordered pairs within each long-digit-run list"),
+                Hyp("long-run-near-misses", gen.long_run_case(), 1200, shards=2),
+                Enum("assignment-attempts", gen.edit_cases, "start x donor x assignment template on a live object"),
+                Hyp("edited-pairs", gen.edited_pair(), 1000, shards=2),
+                Custom("dpkg-binary", dpkg_phase_factory(450, 300, 150), shards=4)]
     return [Enum("pool-all-pairs", all_pairs("quick"), EXHAUSTIVE["thorough"]),
             Custom("big-pool-sample", big_pool_phase, shards=16),
             Hyp("near-miss-pairs", gen.near_pair(), 25000, shards=16),
             Hyp("triples", gen.near_triple(), 8000, shards=16),
-            Custom("dpkg-binary", dpkg_phase_factory(3500, 2750), shards=16)]
+            Enum("long-digit-runs", long_run_pairs("thorough"), "all ordered pairs of the long-digit-run pool"),
+            Hyp("long-run-near-misses", gen.long_run_case(), 8000, shards=8),
+            Enum("assignment-attempts", gen.edit_cases, "start x donor x assignment template on a live object"),
+            Hyp("edited-pairs", gen.edited_pair(), 6000, shards=8),
+            Custom("dpkg-binary", dpkg_phase_factory(3500, 2750, 1000), shards=16)]
